@@ -23,9 +23,9 @@ func init() {
 		Title: "OSM XML decoding is faithful; streaming scan equals whole-document decode",
 		Explanation: "Structural necessary conditions on the naming layer, which is the entire decoding mechanism of this library: " +
 			"(T1) every element/attribute name of the external OSM XML table (tables/osmxml.json: OSM XML, API v0.6, osmChange, augmented diff) is claimed, with the right kind (attribute / structured element / character data, a>b paths resolved), by the tag of the exported Go field the table names, and no struct has tags encoding/xml rejects; " +
-			"(T2) for every element name osm.OSM's element fields carry, and for no other name, every path of the streaming scanner's Scan that returns true has decoded (exactly one DecodeElement) into a fresh object of the field's own element type (whose XMLName, when declared, is that name) and holds that very object in the field its Object accessor returns; osmChange blocks are *OSM fields decoded by tags alone, so a repeated block is decoded into the same struct and its slice fields accumulate; " +
-			"(T3) for a token that is not a start element, and for a start element of any other name, every path goes back to the head of the loop that reads the next token without decoding or skipping anything (Decoder.Skip is called on no path), and every DecodeElement receives the start element bound in the same iteration on the decoder the token came from; " +
-			"(T4) Action.UnmarshalXML stores the Value of the start element's `type` attribute (and of no other attribute) into Action.Type and, for each of old, new, node, way, relation, decodes the child into a fresh object that the documented field of the action holds at the end of the iteration; Date parses the text it decoded with the layout it formats with; " +
+			"(T2) for every element name osm.OSM's element fields carry, and for no other name - the dispatch is on the element name itself: spellings that differ in case, surrounding space, prefix or suffix (Node, NODE, ` node`, nodes, xnode) are explored as names of their own and must yield nothing - every path of the streaming scanner's Scan that returns true has decoded (exactly one DecodeElement) into a fresh object of the field's own element type (whose XMLName, when declared, is that name) and holds that very object in the field its Object accessor returns; osmChange blocks are *OSM fields decoded by tags alone, so a repeated block is decoded into the same struct and its slice fields accumulate; " +
+			"(T3) a token that is not a start element takes every path back to the head of the loop that reads the next token; a start element named like a container of the three formats (derived from tables/osmxml.json: the document elements of OSM, Change, Diff and every element on the way from them to a list of objects - osm, osmChange, create, modify, delete, action, old, new) is walked into: the next token is read without decoding or skipping anything; every other start element that is no object has its content skipped (Decoder.Skip on the decoder the token came from, once, before the next token is read - encoding/xml's Unmarshal ignores an element no field claims together with its content, so whole-document decoding never sees what is nested in it), and when that Skip fails Scan returns false with the error kept in the field the error of Token is kept in; the one exception is the document element, which may be walked into whatever its name on a condition that holds for the first start element only (a scanner field that is zero in every scanner a constructor returns and non-zero after any start element was bound); every DecodeElement receives the start element bound in the same iteration on the decoder the token came from; " +
+			"(T4) Action.UnmarshalXML stores the Value of the start element's `type` attribute (and of no other attribute) into Action.Type and, for each of old, new, node, way, relation, decodes the child into a fresh object that the documented field of the action holds at the end of the iteration; node, way and relation children accumulate: when the action may already hold an OSM body (it is not known to be nil on the path) the body is kept and the list is the previous list extended by the child, a fresh body or list that drops the children decoded before is a violation (Action.MarshalXML writes all of them); Date parses the text it decoded, and time.Parse with its layout reads what Date.MarshalXML formats: the layouts are equal, or differ only by a fractional-seconds field right after the seconds of the writer's layout (package time, Parse: a fractional second after the seconds field is accepted even if the layout does not signify it); " +
 			"(T5) between DecodeElement and the return of Scan nothing is stored through the decoded object and it is handed to no code the analysis does not enter: the scanner yields what encoding/xml decoded, as a whole-document decode does. " +
 			"(T6) every DecodeElement reached inside a loop (the scanner, every UnmarshalXML) fills a value created in that loop iteration - DecodeElement keeps what the element does not carry, so a scratch value declared before the loop, partially reset, or retained makes an element inherit its predecessor's fields; what a custom decoder leaves in its receiver is not built on a package-level variable; a type with xml-tagged fields and its own UnmarshalXML stores each attribute named by a tag into the tagged field (and no other) and holds the decoded child of each element tag in the tagged field; a numeric or bool field filled from an attribute holds the result of strconv applied to the whole (trimmed) attribute text with base 10 and the field's bit size - a value computed by the decoder's own arithmetic is undecided, another base or bit size a violation. " +
 			"(T7) the scanner reads tokens from a decoder configured like the one xml.Unmarshal builds: created by xml.NewDecoder, and on no path of package osmxml is Strict, AutoClose, Entity, DefaultSpace or CharsetReader of an *xml.Decoder given a non-default value (lenient tokenising closes elements early and accepts what the strict decoder rejects; a CharsetReader makes the scanner accept encodings whole-document decoding rejects - reported as a violation too, since scanning then yields objects where xml.Unmarshal returns an error); a decoder built by xml.NewTokenDecoder or handed to code that is not entered is undecided. " +
@@ -39,7 +39,7 @@ func init() {
 		Rules: []*core.Rule{
 			{ID: "T1", Floor: 140, Doc: "schema table <-> struct tags (names, kinds, Go fields, XMLName, well-formed tags)", Run: c03T1},
 			{ID: "T2", Floor: 25, Doc: "scanner yields, per element name of osm.OSM, the fresh decoded object of the field's type (7 names + 7 fields + dispatch); osmChange containers accumulate (1 + 3 + 6)", Run: c03T2},
-			{ID: "T3", Floor: 11, Doc: "scanner walks into wrappers: other names / non-start tokens go back to the token loop, no Skip, DecodeElement gets the element just read (4 + 7 names)", Run: c03T3},
+			{ID: "T3", Floor: 20, Doc: "scanner walks into the containers of the formats and into nothing else: non-start tokens go back to the token loop, 8 containers are walked into, every other non-object element is skipped with its content (Skip on the same decoder, error kept), the document element excepted; DecodeElement gets the element just read (loop, nonstart, default, skip, root + 8 containers + 7 names)", Run: c03T3},
 			{ID: "T4", Floor: 13, Doc: "custom decoders: Action.UnmarshalXML child elements (5 + 5) and type attribute; Date layout and decode", Run: c03T4},
 			{ID: "T5", Floor: 7, Doc: "the scanner publishes the decoded object unmodified: no store through it, no hand-off, between DecodeElement and return (7 names)", Run: c03T5},
 			{ID: "T6", Floor: 14, Doc: "hand-written element decoders: every DecodeElement reached in a loop fills a value created in that iteration (7 scanner names + 5 action children); a type with xml tags and its own UnmarshalXML reads the names its tags state", Run: c03T6},
@@ -56,19 +56,17 @@ func init() {
 			{Name: "scanner-no-note", File: "osmxml/scanner.go", Find: "\t\tcase \"note\":\n\t\t\tn := &osm.Note{}\n\t\t\terr = s.decoder.DecodeElement(&n, &se)\n\t\t\ts.next = n\n", Replace: "", ExpectRule: "T2", ExpectConstruct: "field OSM.Notes"},
 			{Name: "scanner-yields-stale", File: "osmxml/scanner.go", Find: "\t\t\ts.next = way\n", Replace: "", ExpectRule: "T2", ExpectConstruct: "case \"way\""},
 			{Name: "change-modify-tag-capitalised", File: "change.go", Find: "Modify *OSM `xml:\"modify\"", Replace: "Modify *OSM `xml:\"Modify\"", ExpectRule: "T2", ExpectConstruct: "container@Change.Modify"},
-			{Name: "scanner-rewrites-decoded-field", File: "osmxml/scanner.go", Find: "\t\t\terr = s.decoder.DecodeElement(&node, &se)\n\t\t\ts.next = node\n", Replace: "\t\t\terr = s.decoder.DecodeElement(&node, &se)\n\t\t\tnode.User = strings.TrimSpace(node.User)\n\t\t\ts.next = node\n", ExpectRule: "T5", ExpectConstruct: "unmodified \"node\""},
+			{Name: "scanner-rewrites-decoded-field", File: "osmxml/scanner.go", Find: "\t\t\terr = s.decoder.DecodeElement(&node, &se)\n\t\t\ts.next = node\n", Replace: "\t\t\terr = s.decoder.DecodeElement(&node, &se)\n\t\t\tnode.Visible = true\n\t\t\ts.next = node\n", ExpectRule: "T5", ExpectConstruct: "unmodified \"node\""},
 			{Name: "scanner-hands-object-out", File: "osmxml/scanner.go", Find: "\t\t\terr = s.decoder.DecodeElement(&way, &se)\n\t\t\ts.next = way\n", Replace: "\t\t\terr = s.decoder.DecodeElement(&way, &se)\n\t\t\tway.Nodes.UnmarshalJSON(nil)\n\t\t\ts.next = way\n", ExpectRule: "T5", ExpectConstruct: "unmodified \"way\""},
 			{Name: "scanner-publishes-other-object", File: "osmxml/scanner.go", Find: "\t\t\terr = s.decoder.DecodeElement(&relation, &se)\n\t\t\ts.next = relation\n", Replace: "\t\t\terr = s.decoder.DecodeElement(&relation, &se)\n\t\t\ts.next = &osm.Relation{ID: relation.ID}\n", ExpectRule: "T2", ExpectConstruct: "case \"relation\""},
-			{Name: "scanner-skips-wrappers", File: "osmxml/scanner.go", Find: "\t\tdefault:\n\t\t\tcontinue Loop", Replace: "\t\tdefault:\n\t\t\ts.decoder.Skip()\n\t\t\tcontinue Loop", ExpectRule: "T3", ExpectConstruct: "skip@"},
-			{Name: "scanner-default-falls-through", File: "osmxml/scanner.go", Find: "\t\tdefault:\n\t\t\tcontinue Loop", Replace: "\t\tdefault:\n\t\t\tif se.Name.Local != \"osm\" {\n\t\t\t\tcontinue Loop\n\t\t\t}", ExpectRule: "T3", ExpectConstruct: "default@"},
 			{Name: "scanner-stops-on-chardata", File: "osmxml/scanner.go", Find: "\t\tif !ok {\n\t\t\tcontinue\n\t\t}", Replace: "\t\tif !ok {\n\t\t\treturn false\n\t\t}", ExpectRule: "T3", ExpectConstruct: "nonstart@"},
 			{Name: "scanner-decode-without-start", File: "osmxml/scanner.go", Find: "err = s.decoder.DecodeElement(&node, &se)", Replace: "err = s.decoder.DecodeElement(&node, nil)", ExpectRule: "T3", ExpectConstruct: "case \"node\""},
 			{Name: "action-old-into-new", File: "diff.go", Find: "\t\tcase \"old\":\n\t\t\ta.Old = &OSM{}\n\t\t\tif err := d.DecodeElement(a.Old, &start); err != nil {", Replace: "\t\tcase \"old\":\n\t\t\ta.New = &OSM{}\n\t\t\tif err := d.DecodeElement(a.New, &start); err != nil {", ExpectRule: "T4", ExpectConstruct: "case \"old\""},
-			{Name: "action-no-relation", File: "diff.go", Find: "\t\tcase \"relation\":\n\t\t\tr := &Relation{}\n\t\t\tif err := d.DecodeElement(&r, &start); err != nil {\n\t\t\t\treturn err\n\t\t\t}\n\t\t\ta.OSM = &OSM{Relations: Relations{r}}\n", Replace: "", ExpectRule: "T4", ExpectConstruct: "relation"},
+			{Name: "action-no-relation", File: "diff.go", Find: "\t\tcase \"relation\":\n\t\t\tr := &Relation{}\n\t\t\tif err := d.DecodeElement(&r, &start); err != nil {\n\t\t\t\treturn err\n\t\t\t}\n\t\t\tif a.OSM == nil {\n\t\t\t\ta.OSM = &OSM{}\n\t\t\t}\n\t\t\ta.OSM.Relations = append(a.OSM.Relations, r)\n", Replace: "", ExpectRule: "T4", ExpectConstruct: "relation"},
 			{Name: "action-type-wrong-attr", File: "diff.go", Find: "if attr.Name.Local == \"type\" {", Replace: "if attr.Name.Local == \"action\" {", ExpectRule: "T4", ExpectConstruct: "attr@"},
 			{Name: "date-parse-other-layout", File: "note.go", Find: "d.Time, err = time.Parse(dateLayout, s)", Replace: "d.Time, err = time.Parse(time.RFC3339, s)", ExpectRule: "T4", ExpectConstruct: "layout@Date"},
-		}, append(append([]core.Mutant{}, append(append(c03Mutants2List(), c03FreshMutants...), c03DecoderMutants...)...), c03Mutants5...)...),
-		Benign: append(append([]core.Mutant{}, append(append(append([]core.Mutant{}, c03Benign...), c03Benign2List()...), append(append([]core.Mutant{}, c03FreshBenign...), c03DecoderBenign...)...)...), c03Benign5...),
+		}, append(append([]core.Mutant{}, append(append(c03Mutants2List(), c03FreshMutants...), c03DecoderMutants...)...), append(append(append([]core.Mutant{}, c03Mutants5...), c03ScanMutants...), c03ActionMutants...)...)...),
+		Benign: append(append([]core.Mutant{}, append(append(append([]core.Mutant{}, c03Benign...), c03Benign2List()...), append(append([]core.Mutant{}, c03FreshBenign...), c03DecoderBenign...)...)...), append(append(append([]core.Mutant{}, c03Benign5...), c03ScanBenign...), c03ActionBenign...)...),
 	})
 }
 
@@ -280,7 +278,7 @@ func c03T4(r *core.R) {
 	if m := c03BuildActionModel(r, attrs, elems); m != nil {
 		c03T4Action(r, m, tt, inTable)
 	}
-	c03DateLayout(r, "layout@Date")
+	c03DateLayout(r, "layout@Date", false)
 	c03DateDecode(r)
 }
 
@@ -431,7 +429,7 @@ func c03ObserveDate(r *core.R) *c03DateObs {
 // c03DateLayout checks that Date.UnmarshalXML parses with the layout Date.MarshalXML formats with
 // (shared by C03.T4 and C04.X5). The layouts are the values that reach time.Parse / Time.Format on the explored
 // paths, whatever constant, local or helper they travel through.
-func c03DateLayout(r *core.R, construct string) {
+func c03DateLayout(r *core.R, construct string, needFraction bool) {
 	o := c03ObserveDate(r)
 	if o == nil {
 		return
@@ -448,8 +446,12 @@ func c03DateLayout(r *core.R, construct string) {
 	switch {
 	case pl.K != c03KStr || fl.K != c03KStr:
 		r.Unknown(construct, o.parse[0].Node.Pos(), "layout is not a constant (%s / %s)", src(r.P.Fset, o.parse[0].Call.Args[0]), src(r.P.Fset, o.format[0].Call.Args[0]))
+	case !c04LayoutReadBy(fl.Str, pl.Str):
+		r.Bad(construct, o.parse[0].Node.Pos(), "Date.UnmarshalXML parses with layout %q (%s) but Date.MarshalXML formats with %q (%s): a written note date is not read back (time.Parse accepts a fractional-seconds field the layout does not name only right after the seconds; everything else has to agree)", pl.Str, src(r.P.Fset, o.parse[0].Call.Args[0]), fl.Str, src(r.P.Fset, o.format[0].Call.Args[0]))
+	case needFraction && !c04LayoutKeepsFraction(fl.Str):
+		r.Bad(construct, o.format[0].Node.Pos(), "Date.MarshalXML formats with layout %q (%s), which has no nanosecond fractional-seconds field after the seconds: the sub-second part of a Date is dropped on marshalling although Date.UnmarshalXML (time.Parse with %q) reads a fraction back", fl.Str, src(r.P.Fset, o.format[0].Call.Args[0]), pl.Str)
 	case pl.Str != fl.Str:
-		r.Bad(construct, o.parse[0].Node.Pos(), "Date.UnmarshalXML parses with layout %q (%s) but Date.MarshalXML formats with %q (%s): a written note date is not read back", pl.Str, src(r.P.Fset, o.parse[0].Call.Args[0]), fl.Str, src(r.P.Fset, o.format[0].Call.Args[0]))
+		r.OK(construct, o.parse[0].Node.Pos(), "formatted with %q, parsed with %q: time.Parse reads the fractional seconds that follow the seconds field although its layout does not name them", fl.Str, pl.Str)
 	default:
 		r.OK(construct, o.parse[0].Node.Pos(), "parsed and formatted with the same layout %q", pl.Str)
 	}
